@@ -14,7 +14,7 @@ conversion error the offending text and a ValueError.
 """
 import random
 
-from .. import scenario, schemas, textgen
+from .. import project, scenario, schemas, textgen
 from ..textgen import Line
 from . import c06
 
@@ -190,6 +190,24 @@ def compare(ws, sch, rec, item, emit):
         why = "resource"
     elif got["kind"] == "conv" and (got["value"] != c["value"] or got["exc"] != "ValueError"):
         why = "conversion-error-value"
+    if why is None and len(item["files"]) == 1 and not item["opts"]:
+        # the same text from an open file object without a name: there is no URL to carry, the line is the same
+        import io
+        import ZConfig
+        text = "".join(str(l) + "\n" for l in item["files"][item["main"]])
+        try:
+            ZConfig.loadConfigFile(sch, io.StringIO(text))
+            got = {"r": "ok"}
+        except Exception as e:
+            got = project.exc_outcome(e)
+        if got["r"] != "err":
+            why = "url-less: accepted"
+        elif got["kind"] not in c["kinds"]:
+            why = "url-less: error-kind"
+        elif got["line"] != c["line"]:
+            why = "url-less: line"
+        elif got["kind"] == "conv" and (got["value"] != c["value"] or got["exc"] != "ValueError"):
+            why = "url-less: conversion-error-value"
     if why is None:
         return None
     return {"clause": why, "observed": got, "culprit": c,
